@@ -185,11 +185,21 @@ NOT_APPLICABLE = {}
 
 # Coherence theorems (oracle accepts the model's own output on the whole stated domain): statement files outside Props/Cxx.v,
 # counted among the obligations of the property whose oracle they speak about: property -> [(file under Props/, name regex)]
+_TBL = r"^coherence_(xsdt|mcfg|madt|srat|slit|hmat|pptt|rhct|rimt|viot|cedt|hest|rqsc|tpm2|tpmserver|tpmclient|fadt|bert|spcr|facs|rsdp|no_false_alarm|markers_ok_needed)$"
 COHERENCE = {
     "C17": [("Coherence", r"^coh_ck")],
-    "C07": [("Coherence", r"^coh_pkglen(?!18)")],
+    "C07": [("Coherence", r"^coh_pkglen(?!18)"), ("CoherenceAml", r"^coherence_C07")],
     "C08": [("Coherence", r"^coh_int")],
     "C09": [("Coherence", r"^coh_path(?!18)")],
     "C16": [("Coherence", r"^coh_(eisa|uuid)")],
     "C18": [("Coherence", r"^coh_(pkglen18|path18)")],
+    # tables: each coherence_<table> theorem speaks about the oracles of C04, C01 and C02 at once
+    "C01": [("CoherenceTables", _TBL)],
+    "C02": [("CoherenceTables", _TBL)],
+    "C04": [("CoherenceTables", _TBL)],
+    "C11": [("CoherenceTables", r"^coherence_c11_c12$")],
+    "C12": [("CoherenceTables", r"^coherence_(c11_c12|slit|hmat)$")],
+    "C06": [("CoherenceAml", r"^coherence_(expect_is_norm|expect_gives_wf|C06|C06_every_case|size_bound_needed)$")],
+    "C10": [("CoherenceAml", r"^coherence_C10")],
+    "C15": [("CoherenceAml", r"^coherence_C15")],
 }
